@@ -422,6 +422,17 @@ var fileCases = []string{
 	"write-ok-srt", "write-ok-vtt", "write-ok-ssa", "write-ok-stl", "write-ok-ttml",
 	// the repository's command line tool on top of the helpers (exit status is its only error channel)
 	"cli-convert-ok", "cli-open-missing", "cli-write-devfull", "cli-write-missing-dir", "cli-merge-second-missing",
+	// every subcommand: an input that opens but fails while it is parsed (over-long line behind three good cues), a
+	// destination on a full device, and the fault-free run (exit 0 and a complete file)
+	"cli-all-bad-input", "cli-all-devfull", "cli-all-ok",
+	// merge of a failing input with a large good one, in both orders (whichever is opened or finishes first)
+	"cli-merge-bad-first-large-second", "cli-merge-large-first-bad-second",
+}
+
+// cliSubcommands lists the subcommands of the repository's tool with the arguments each needs.
+var cliSubcommands = [][]string{
+	{"convert"}, {"fragment", "-f", "1s"}, {"optimize"}, {"sync", "-s", "1s"}, {"unfragment"},
+	{"apply-linear-correction", "-a1", "1s", "-d1", "1s", "-a2", "2s", "-d2", "2s"},
 }
 
 // cliPath is the CLI built from the tree under test ("" = not available).
@@ -543,6 +554,62 @@ func checkC18File(name, dir string) (v *Violation, note string) {
 		case "cli-merge-second-missing":
 			if rc, _ := run("merge", "-i", in, "-i", filepath.Join(dir, "missing2.srt"), "-o", filepath.Join(dir, "m.vtt")); rc == 0 {
 				return mk("CLI merge with a missing second input exited 0"), ""
+			}
+		case "cli-all-bad-input", "cli-merge-bad-first-large-second", "cli-merge-large-first-bad-second":
+			bad := filepath.Join(dir, "bad.srt")
+			_ = os.WriteFile(bad, corpus.LongLine("srt", 5, 3, "text", 70000).Data, 0o644)
+			if _, err, _ := fileOpen(bad); err == nil {
+				return nil, "skipped: the library accepts a 70 000-byte line"
+			}
+			if name == "cli-all-bad-input" {
+				for _, sub := range append(cliSubcommands, []string{"merge", "-i", in}) {
+					args := append(append([]string{}, sub...), "-i", bad, "-o", filepath.Join(dir, "o-"+sub[0]+".vtt"))
+					if rc, _ := run(args...); rc == 0 {
+						return mk("CLI " + sub[0] + " of an input that fails while it is read (over-long line behind three cues) exited 0"), ""
+					}
+				}
+				return nil, ""
+			}
+			large := filepath.Join(dir, "large.srt")
+			_ = os.WriteFile(large, corpus.Large("srt", prng.New(1).Derive("cli-large", 0), 3<<20).Data, 0o644)
+			a, b := bad, large
+			if name == "cli-merge-large-first-bad-second" {
+				a, b = large, bad
+			}
+			for k := 0; k < 3; k++ { // which of the two finishes first is not controlled here: a few attempts
+				if rc, _ := run("merge", "-i", a, "-i", b, "-o", filepath.Join(dir, "m.vtt")); rc == 0 {
+					return mk("CLI merge of " + filepath.Base(a) + " and " + filepath.Base(b) + " (one of them fails while it is read) exited 0"), ""
+				}
+			}
+		case "cli-all-devfull":
+			if _, err := os.Stat("/dev/full"); err != nil {
+				return nil, "skipped: no /dev/full"
+			}
+			p := filepath.Join(dir, "full.vtt")
+			if err := os.Symlink("/dev/full", p); err != nil {
+				return nil, "skipped: " + err.Error()
+			}
+			for _, sub := range append(cliSubcommands, []string{"merge", "-i", in}) {
+				args := append(append([]string{}, sub...), "-i", in, "-o", p)
+				if rc, _ := run(args...); rc == 0 {
+					return mk("CLI " + sub[0] + " to a full device (ENOSPC) exited 0"), ""
+				}
+			}
+		case "cli-all-ok":
+			for _, sub := range cliSubcommands {
+				if sub[0] == "fragment" {
+					continue // changes the number of cues
+				}
+				outp := filepath.Join(dir, "ok-"+sub[0]+".vtt")
+				args := append(append([]string{}, sub...), "-i", in, "-o", outp)
+				rc, o := run(args...)
+				if rc != 0 {
+					return nil, "fault-free CLI " + sub[0] + " failed (" + trunc(o, 100) + "): not a C18 matter"
+				}
+				b, _ := os.ReadFile(outp)
+				if why := completeSink("vtt", b, 3, "2"); why != "" {
+					return mk("CLI " + sub[0] + " exited 0 but " + why), ""
+				}
 			}
 		}
 		return nil, ""
